@@ -333,6 +333,9 @@ class Helper:
 
     def choose_words(self, words):
         assert threading.current_thread().ident == self._main_thread
+        if " " in words:
+            # the same rule set_code() applies to a whole code
+            raise errors.KeyFormatError(f"Code words '{words}' contain spaces.")
         self._input._debug("I.choose_words")
         self._input.choose_words(words)
         self._input._debug("I.choose_words finished")
